@@ -91,11 +91,11 @@ def random_spec(rng, shapes=None, strategy=None, plugins=None):
 
 STEP_WEIGHTS = {
     'add': 5, 'set': 8, 'set_same': 2, 'set_null': 2, 'del': 3, 'readd': 2, 'setrel': 3, 'link': 3, 'unlink': 2,
-    'flush': 5, 'commit': 5, 'rollback': 1, 'query': 1, 'expire': 0, 'manual_tx': 0, 'sp_begin': 0, 'sp_commit': 0,
+    'flush': 5, 'commit': 5, 'rollback': 1, 'query': 1, 'expire': 0, 'manual_tx': 0, 'sp_begin': 0, 'sp_commit': 0, 'sp_rollback': 0,
 }
 
 
-def random_program(rng, spec, nsteps, weights=None, nkeys=3, nvals=4):
+def random_program(rng, spec, nsteps, weights=None, nkeys=3, nvals=4, allow_class_switch=False):
     """The generator keeps a shadow of which entities exist so that most steps are applicable."""
     info = entity_info(spec)
     w = dict(STEP_WEIGHTS)
@@ -108,6 +108,7 @@ def random_program(rng, spec, nsteps, weights=None, nkeys=3, nvals=4):
     prog = []
     deleted_uncommitted = set()
     sp_open = [0]
+    sp_exists = [{}]
     deleted_unflushed = set()   # root keys deleted since the last flush: re-adding them now would be a
                                 # "row switch" (delete + insert of one key in one flush), which is the open
                                 # finding F-ROWSWITCH; the random stream avoids it (a pinned corpus case keeps it)
@@ -136,7 +137,7 @@ def random_program(rng, spec, nsteps, weights=None, nkeys=3, nvals=4):
             # W7: within one database transaction a key keeps its class (re-creating it as another class
             # of the same hierarchy is allowed only after the deletion was committed)
             prev = class_of.get((root(cname), tuple(pk)))
-            if prev is not None and prev != cname and (root(cname), tuple(pk)) in deleted_uncommitted:
+            if prev is not None and prev != cname and ((root(cname), tuple(pk)) in deleted_uncommitted or not allow_class_switch):
                 cname = prev
             class_of[(root(cname), tuple(pk))] = cname
             if (root(cname), tuple(pk)) in deleted_unflushed:
@@ -197,10 +198,18 @@ def random_program(rng, spec, nsteps, weights=None, nkeys=3, nvals=4):
             if sp_open[0] == 0:
                 prog.append(['sp_begin'])
                 sp_open[0] = 1
+                sp_exists[0] = dict(exists)
         elif kind == 'sp_commit':
             if sp_open[0] == 1:
                 prog.append(['sp_commit'])
                 sp_open[0] = 0
+        elif kind == 'sp_rollback':
+            if sp_open[0] == 1:
+                prog.append(['sp_rollback'])
+                sp_open[0] = 0
+                # entities created inside the savepoint are gone; the generator's shadow keeps it simple and
+                # forgets every entity touched since (it may skip some later steps, which is harmless)
+                exists = dict(sp_exists[0])
         elif kind == 'rollback':
             sp_open[0] = 0
             prog.append(['rollback'])
